@@ -1,6 +1,7 @@
 import RxProofs.Lemmas.WinCount
 import RxProofs.Lemmas.WinEnd
 import RxProofs.Lemmas.WinChain
+import RxProofs.Lemmas.WinBufView
 /-!
 # C18 — windows and buffers partition the source correctly
 
@@ -208,6 +209,67 @@ theorem toggle_completion_counter :
        (290, .src 0 (.next 3)), (300, .src 0 (.completed : Notif Nat))]
     s.b.wins.map (fun w => (w.pushed, w.ended)) = [([2, 3], none), ([3], none)] ∧ s.b.outerStopped = false ∧
       s.b.live = [1] := by decide
+
+/-! ## buffer_eq_window : each buffer equals the contents of its window
+
+Buffers are `window ∘ flat_map(to_list)`: `BufView` (RxModel/WinBuf.lean) consumes the window machine's log.
+`buffer_is_items`: when the view consumes the completion of window `id` it emits exactly `itemsOf seen id` — the
+elements the window's subscriber received so far (dropped by `buffer_with_count` when empty) — and `seen` is exactly
+the log consumed so far (`buffer_view_seen`).  `buffer_eq_window_*`: in every state of every run of every window
+machine (any event trace, dispose and ticks anywhere), for every window that still has its subscriber attached or
+whose terminal was delivered to it, the elements that subscriber received are exactly the elements pushed into the
+window (`pushed`) — hence every buffer equals the contents of its window. -/
+
+theorem buffer_is_items (nonEmpty : Bool) (v : BufView α) (t id : Nat) (hs : v.stopped = false) :
+    (BufView.feed nonEmpty v (t, .win id .completed)).out =
+      v.out ++ (if nonEmpty && (itemsOf v.seen id).isEmpty then [] else [(t, BOut.outer (.next (itemsOf v.seen id)))])
+        ++ (if v.outerDone && v.active - 1 == 0 then [(t, BOut.outer .completed)] else []) :=
+  BufView.feed_completed nonEmpty v t id hs
+
+theorem buffer_view_seen (nonEmpty : Bool) (l : List (Nat × Out α)) :
+    (l.foldl (BufView.feed nonEmpty) {}).seen = l := by
+  rw [BufView.seen_fold]; rfl
+
+/-- the statement about one state. -/
+def ItemsArePushed (b : Base α) : Prop :=
+  ∀ id w, b.wins[id]? = some w → (w.attached = true ∨ endLogged b.log id) → itemsOf b.log id = w.pushed
+
+theorem buffer_eq_window_count (count skip t0 : Nat) (evs : List (Nat × Ev α)) :
+    ItemsArePushed (Cnt.run count skip (Cnt.init t0) evs).b := by
+  rw [Cnt.run_eq_fold]
+  exact (J_fold (Cnt.mach count skip) (·.b) (fun s t e h => Cnt.J_step count skip s t e h) evs _ (Cnt.J_init t0)).items
+
+theorem buffer_eq_window_boundaries (t0 : Nat) (evs : List (Nat × Ev α)) :
+    ItemsArePushed (Bnd.run (Bnd.init t0) evs).b := by
+  rw [Bnd.run_eq_fold]
+  exact (J_fold Bnd.mach (·.b) (fun s t e h => Bnd.J_step s t e h) evs _ (Bnd.J_init t0)).items
+
+theorem buffer_eq_window_when (raiseAt : Option Nat) (pool t0 : Nat) (evs : List (Nat × Ev α)) :
+    ItemsArePushed (Whn.run raiseAt pool (Whn.init raiseAt pool t0) evs).b := by
+  rw [Whn.run_eq_fold]
+  exact (J_fold (Whn.mach raiseAt pool) (·.b) (fun s t e h => Whn.J_step raiseAt pool s t e h) evs _
+    (Whn.J_init raiseAt pool t0)).items
+
+theorem buffer_eq_window_toggle (raiseAt : Option Nat) (pool t0 : Nat) (evs : List (Nat × Ev α)) :
+    ItemsArePushed (Tgl.run raiseAt pool (Tgl.init t0) evs).b := by
+  rw [Tgl.run_eq_fold]
+  exact (J_fold (Tgl.mach raiseAt pool) (·.b) (fun s t e h => Tgl.J_step raiseAt pool s t e h) evs _ (Tgl.J_init t0)).items
+
+theorem buffer_eq_window_time (span shift t0 horizon fuel : Nat) (evs : List (Nat × Ev α)) :
+    ItemsArePushed ((Tim.mach shift).run horizon fuel (Tim.init span shift t0) evs).b := by
+  rw [Mach.run_eq_fold]
+  exact (J_fold (Tim.mach shift) (·.b) (fun s t e h => Tim.J_step shift s t e h) _ _ (Tim.J_init span shift t0)).items
+
+theorem buffer_eq_window_time_or_count (span count t0 horizon fuel : Nat) (evs : List (Nat × Ev α)) :
+    ItemsArePushed ((Toc.mach span count).run horizon fuel (Toc.init span t0) evs).b := by
+  rw [Mach.run_eq_fold]
+  exact (J_fold (Toc.mach span count) (·.b) (fun s t e h => Toc.J_step span count s t e h) _ _ (Toc.J_init span t0)).items
+
+/-! non-vacuity: a completed count window whose subscriber was attached; the view emits its contents -/
+example : (((Cnt.mach 2 2).bufLog true 3000 100 200 (Cnt.init 200)
+    [(210, .src 0 (.next 1)), (220, .src 0 (.next 2)), (230, .src 0 (.next (3 : Nat))), (240, .src 0 .completed)]).filterMap
+      fun | (t, BOut.outer n) => some (t, n) | _ => none)
+    = [(220, .next [1, 2]), (240, .next [3]), (240, .completed)] := by decide
 
 /-! ## timer_chain : the create_timer sequence opens at k·shift and closes at k·shift+span -/
 
